@@ -216,11 +216,11 @@ def gen_variant(rng, **extra):
     return v
 
 
-def effective_limits(variant, objs, force_explicit=False):
+def effective_limits(variant, objs):
     """explicit limits as used for this archive content: a one-sided explicit limit that would
     give vmin > vmax is dropped; an empty archive gets both limits explicitly."""
     vmin, vmax = variant["vmin"], variant["vmax"]
-    if len(objs) == 0 or force_explicit:
+    if len(objs) == 0:
         return (-2.0 if vmin is None else vmin), (3.0 if vmax is None else vmax)
     lo = min(objs) if vmin is None else vmin
     hi = max(objs) if vmax is None else vmax
@@ -244,6 +244,14 @@ def clim_check(got, vmin, vmax, objs, what):
     elif not (glo <= want[0] and want[1] <= ghi):
         return f"{what}: colour limits {float(glo)},{float(ghi)} do not contain {float(want[0])},{float(want[1])}"
     return None
+
+
+def lims_ok(got, want):
+    """axis limits: exactly `want`; matplotlib expands identical limits, then they must contain them."""
+    lo, hi = want
+    if lo < hi:
+        return tuple(got) == (lo, hi)
+    return got[0] <= lo and hi <= got[1]
 
 
 def clim_corr(got, model, tol=None):
@@ -315,20 +323,35 @@ def read_scatter(ax):
            "clim": (F(lo), F(hi)),
            "xlim": tuple(F(v) for v in ax.get_xlim()), "ylim": tuple(F(v) for v in ax.get_ylim())}
     vert, horiz = [], []
+    groups = []
     for lc in ax.collections:
         if not isinstance(lc, LineCollection):
             continue
-        for seg in lc.get_segments():
-            seg = np.asarray(seg)
-            if seg.shape != (2, 2):
-                return None, "boundary segment is not a 2-point line"
-            (x0, y0), (x1, y1) = seg
-            if x0 == x1 and y0 != y1:
+        segs = [np.asarray(sg) for sg in lc.get_segments()]
+        if any(sg.shape != (2, 2) for sg in segs):
+            return None, "boundary segment is not a 2-point line"
+        is_v = all(sg[0, 0] == sg[1, 0] for sg in segs)
+        is_h = all(sg[0, 1] == sg[1, 1] for sg in segs)
+        if not (is_v or is_h):
+            return None, "boundary segment is neither vertical nor horizontal"
+        groups.append([segs, is_v, is_h])
+    if len(groups) > 2:
+        return None, f"{len(groups)} LineCollections on the Axes"
+    # a zero-length segment (archive bounds collapsed by a remap) is both: decide by the other group, then by order
+    kinds = [("v" if g[1] and not g[2] else "h" if g[2] and not g[1] else None) for g in groups]
+    for i, k in enumerate(kinds):
+        if k is None:
+            other = kinds[1 - i] if len(kinds) == 2 else None
+            kinds[i] = ("h" if other == "v" else "v" if other == "h" else ("v" if i == 0 else "h"))
+    if len(kinds) == 2 and kinds[0] == kinds[1]:
+        return None, "two boundary line collections with the same orientation"
+    for (segs, _, _), k in zip(groups, kinds):
+        for sg in segs:
+            (x0, y0), (x1, y1) = sg
+            if k == "v":
                 vert.append((F(x0), (F(y0), F(y1))))
-            elif y0 == y1 and x0 != x1:
-                horiz.append((F(y0), (F(x0), F(x1))))
             else:
-                return None, "boundary segment is neither vertical nor horizontal"
+                horiz.append((F(y0), (F(x0), F(x1))))
     obs["vert"], obs["horiz"] = vert, horiz
     return obs, None
 
@@ -411,8 +434,9 @@ def call_both(fn, archive, variant, kwargs, read, where, vmin, vmax):
         if archive_sum(archive) != base_sum:
             return None, Failure("oracle", f"{tag}: plotting modified the archive")
         if use_df and frame_sum(df) != dsum:
-            return None, Failure("oracle", f"{tag}: plotting modified the caller's data frame "
-                                 f"(kwargs={ {k: v for k, v in kwargs.items() if k == 'sort_archive'} })", key="D15")
+            key = "D15" if fn.__name__ == "parallel_axes_plot" and kwargs.get("sort_archive") else None
+            return None, Failure("oracle", f"{tag}: {fn.__name__} modified the caller's data frame "
+                                 f"(sort_archive={kwargs.get('sort_archive')})", key=key)
         out.append(obs)
     if out[0] != out[1]:
         diff = [k for k in out[0] if out[0][k] != out[1][k]]
@@ -830,7 +854,7 @@ def run_sliding(case):
                     return Failure("oracle", f"{where}: boundary lines do not span the archive bounds")
             elif obs["vert"] or obs["horiz"]:
                 return Failure("oracle", f"{where}: boundary lines drawn with boundary_lw=0")
-            if obs["xlim"] != (lo[xd], hi[xd]) or obs["ylim"] != (lo[yd], hi[yd]):
+            if not lims_ok(obs["xlim"], (lo[xd], hi[xd])) or not lims_ok(obs["ylim"], (lo[yd], hi[yd])):
                 return Failure("oracle", f"{where}: axis limits are not the archive bounds of the plotted dimensions")
             msg = clim_check(obs["clim"], vmin, vmax, objs, where)
             if msg:
@@ -863,7 +887,7 @@ def cmp_scatter(obs, line, where, lines, lims):
         return Failure("corr", f"{where}: colour array impl={_short(obs['c'])} model={d['c'][:200]}")
     if not clim_corr(obs["clim"], parse_pair(d["clim"])):
         return Failure("corr", f"{where}: clim impl={_short(obs['clim'])} model={d['clim']}")
-    if lims and (obs["xlim"] != parse_pair(d["xlim"]) or obs["ylim"] != parse_pair(d["ylim"])):
+    if lims and not (lims_ok(obs["xlim"], parse_pair(d["xlim"])) and lims_ok(obs["ylim"], parse_pair(d["ylim"]))):
         return Failure("corr", f"{where}: axis limits impl={_short([obs['xlim'], obs['ylim']])} "
                        f"model={d['xlim']} {d['ylim']}")
     if lines:
